@@ -55,67 +55,70 @@ def _replay_nearest(rows):
     for X, q, ans in rows:
         byX.setdefault(str(X), (X, []))[1].append((q, ans))
     for key, (X, qs) in byX.items():
-        Xs = np.array(X, dtype=float) / 8.0          # what the dataset exposes after min-max scaling (columns span 0..8 -> 0..1)
-        rs = np.random.RandomState(len(X))
-        Y = rs.randn(len(X), 2)
-        cls = AT.register_dataset("VVP%d" % abs(hash(key) % 10 ** 6), np.array(X, dtype=float), Y)   # raw inputs 0/4/8: min-max scaling is the exact division by 8
-        ds = cls()
-        if not np.array_equal(ds.in_data, Xs):
-            bad.append({"kind": "dataset-minmax", "X": X, "got": ds.in_data.tolist()})
-            continue
-        prob = ProblemFromDataset(ds, 0.25)
-        dec = DecoupledEvaluationProblem(prob)
-        Q = np.array([q for q, _ in qs], dtype=float) / 8.0
-        exp = np.array([a - 1 for _, a in qs])
-        for sq in (False, True):
-            got = np.asarray(get_closest_indices_from_points(Q, ds.in_data, squared=sq))
-            n += 1
-            if not np.array_equal(got, exp):
-                k = int(np.where(got != exp)[0][0])
-                bad.append({"kind": "nearest", "X": X, "q": qs[k][0], "expected": int(exp[k]), "got": int(got[k]), "squared": sq})
-        gi, gd = get_closest_indices_from_points(Q, ds.in_data, return_distances=True, squared=True)
-        if not np.array_equal(gi, exp) or not np.allclose(gd, ((Q - ds.in_data[exp]) ** 2).sum(axis=1), atol=1e-12):
-            bad.append({"kind": "nearest-distances", "X": X})
-        Q0 = Q.copy()
-        f = prob.evaluate(Q, noisy=False)
-        n += 1
-        if not (np.array_equal(f, ds.out_data[exp]) and np.array_equal(Q, Q0) and f.shape == (len(Q), 2)):
-            bad.append({"kind": "evaluate-noiseless-batch", "X": X, "input_unchanged": bool(np.array_equal(Q, Q0))})
-        for k in range(0, len(Q), 7):
-            q1 = Q[k].copy()
-            f1 = prob.evaluate(q1, noisy=False)       # a single point given as a 1-D array
-            if not (np.array_equal(np.asarray(f1).reshape(-1), ds.out_data[exp[k]]) and np.array_equal(q1, Q[k])):
-                bad.append({"kind": "evaluate-noiseless-single", "X": X, "q": qs[k][0]})
-        # noisy: y = f + z . L^T with L = sqrt(noise_var) I ; draws intercepted
-        Z = rs.randint(-2, 4, size=(len(Q), 2)).astype(float)
-        with mock.patch("numpy.random.normal", return_value=Z.copy()):
-            y = prob.evaluate(Q, noisy=True)
-        n += 1
-        if not (np.allclose(y, ds.out_data[exp] + 0.5 * Z, atol=1e-12) and np.array_equal(Q, Q0)):
-            bad.append({"kind": "evaluate-noisy", "X": X, "expected_noise_first": (0.5 * Z[0]).tolist(), "got_noise_first": (y[0] - ds.out_data[exp][0]).tolist()})
-        # the same point queried several times in one batch: every row gets its own draw
-        rep = [0, 1, 0, 2, 0]
-        Qd = Q[rep].copy()
-        Zd = np.array([[1.0, -2.0], [0.0, 3.0], [-2.0, 1.0], [3.0, 0.0], [1.0, 1.0]])
-        with mock.patch("numpy.random.normal", return_value=Zd.copy()):
-            yd = prob.evaluate(Qd, noisy=True)
-        n += 1
-        if not np.allclose(yd, ds.out_data[exp[rep]] + 0.5 * Zd, atol=1e-12):
-            bad.append({"kind": "evaluate-noisy-repeated-rows", "X": X, "got_noise": (yd - ds.out_data[exp[rep]]).tolist(), "expected_noise": (0.5 * Zd).tolist()})
-        # decoupled forms
-        v = ds.out_data[exp]
-        ks = [int(i % 2) for i in range(len(Q))]
-        okd = (np.array_equal(dec.evaluate(Q, None, noisy=False), v) and np.array_equal(dec.evaluate(Q, 1, noisy=False), v[:, 1])
-               and np.array_equal(dec.evaluate(Q, ks, noisy=False), v[np.arange(len(Q)), ks])
-               and np.array_equal(dec.evaluate(Q, np.array(ks), noisy=False), v[np.arange(len(Q)), ks]) and np.array_equal(Q, Q0))
-        n += 4
-        if not okd:
-            bad.append({"kind": "decoupled", "X": X})
-        try:
-            dec.evaluate(Q, ks[:-1], noisy=False)
-            bad.append({"kind": "decoupled-length-accepted", "X": X})
-        except ValueError:
-            pass
+      try:
+          Xs = np.array(X, dtype=float) / 8.0          # what the dataset exposes after min-max scaling (columns span 0..8 -> 0..1)
+          rs = np.random.RandomState(len(X))
+          Y = rs.randn(len(X), 2)
+          cls = AT.register_dataset("VVP%d" % abs(hash(key) % 10 ** 6), np.array(X, dtype=float), Y)   # raw inputs 0/4/8: min-max scaling is the exact division by 8
+          ds = cls()
+          if not np.array_equal(ds.in_data, Xs):
+              bad.append({"kind": "dataset-minmax", "X": X, "got": ds.in_data.tolist()})
+              continue
+          prob = ProblemFromDataset(ds, 0.25)
+          dec = DecoupledEvaluationProblem(prob)
+          Q = np.array([q for q, _ in qs], dtype=float) / 8.0
+          exp = np.array([a - 1 for _, a in qs])
+          for sq in (False, True):
+              got = np.asarray(get_closest_indices_from_points(Q, ds.in_data, squared=sq))
+              n += 1
+              if not np.array_equal(got, exp):
+                  k = int(np.where(got != exp)[0][0])
+                  bad.append({"kind": "nearest", "X": X, "q": qs[k][0], "expected": int(exp[k]), "got": int(got[k]), "squared": sq})
+          gi, gd = get_closest_indices_from_points(Q, ds.in_data, return_distances=True, squared=True)
+          if not np.array_equal(gi, exp) or not np.allclose(gd, ((Q - ds.in_data[exp]) ** 2).sum(axis=1), atol=1e-12):
+              bad.append({"kind": "nearest-distances", "X": X})
+          Q0 = Q.copy()
+          f = prob.evaluate(Q, noisy=False)
+          n += 1
+          if not (np.array_equal(f, ds.out_data[exp]) and np.array_equal(Q, Q0) and f.shape == (len(Q), 2)):
+              bad.append({"kind": "evaluate-noiseless-batch", "X": X, "input_unchanged": bool(np.array_equal(Q, Q0))})
+          for k in range(0, len(Q), 7):
+              q1 = Q[k].copy()
+              f1 = prob.evaluate(q1, noisy=False)       # a single point given as a 1-D array
+              if not (np.array_equal(np.asarray(f1).reshape(-1), ds.out_data[exp[k]]) and np.array_equal(q1, Q[k])):
+                  bad.append({"kind": "evaluate-noiseless-single", "X": X, "q": qs[k][0]})
+          # noisy: y = f + z . L^T with L = sqrt(noise_var) I ; draws intercepted
+          Z = rs.randint(-2, 4, size=(len(Q), 2)).astype(float)
+          with mock.patch("numpy.random.normal", return_value=Z.copy()):
+              y = prob.evaluate(Q, noisy=True)
+          n += 1
+          if not (np.allclose(y, ds.out_data[exp] + 0.5 * Z, atol=1e-12) and np.array_equal(Q, Q0)):
+              bad.append({"kind": "evaluate-noisy", "X": X, "expected_noise_first": (0.5 * Z[0]).tolist(), "got_noise_first": (y[0] - ds.out_data[exp][0]).tolist()})
+          # the same point queried several times in one batch: every row gets its own draw
+          rep = [0, 1, 0, 2, 0]
+          Qd = Q[rep].copy()
+          Zd = np.array([[1.0, -2.0], [0.0, 3.0], [-2.0, 1.0], [3.0, 0.0], [1.0, 1.0]])
+          with mock.patch("numpy.random.normal", return_value=Zd.copy()):
+              yd = prob.evaluate(Qd, noisy=True)
+          n += 1
+          if not np.allclose(yd, ds.out_data[exp[rep]] + 0.5 * Zd, atol=1e-12):
+              bad.append({"kind": "evaluate-noisy-repeated-rows", "X": X, "got_noise": (yd - ds.out_data[exp[rep]]).tolist(), "expected_noise": (0.5 * Zd).tolist()})
+          # decoupled forms
+          v = ds.out_data[exp]
+          ks = [int(i % 2) for i in range(len(Q))]
+          okd = (np.array_equal(dec.evaluate(Q, None, noisy=False), v) and np.array_equal(dec.evaluate(Q, 1, noisy=False), v[:, 1])
+                 and np.array_equal(dec.evaluate(Q, ks, noisy=False), v[np.arange(len(Q)), ks])
+                 and np.array_equal(dec.evaluate(Q, np.array(ks), noisy=False), v[np.arange(len(Q)), ks]) and np.array_equal(Q, Q0))
+          n += 4
+          if not okd:
+              bad.append({"kind": "decoupled", "X": X})
+          try:
+              dec.evaluate(Q, ks[:-1], noisy=False)
+              bad.append({"kind": "decoupled-length-accepted", "X": X})
+          except ValueError:
+              pass
+      except Exception as e:      # the code under test raised where the specification has a defined answer
+        bad.append({"kind": "exception", "X": X, "error": repr(e)[:300]})
     return n, bad
 
 
